@@ -363,7 +363,8 @@ def check_silent_degrade(chk, prog):
                 bad += 1
                 # identified by file and callee, not by the enclosing function: inlining or extracting a helper moves the call
                 # without changing what fails
-                chk.add(Finding('C17.silent-degrade', info['decl'].get('_f'), '*', tgt[1],
+                fam_ = 'json_load*' if tgt[1].startswith('json_load') else tgt[1]
+                chk.add(Finding('C17.silent-degrade', info['decl'].get('_f'), '*', fam_,
                                 '%s() (called in %s) result is returned to the caller / built into the token; %s'
                                 % (tgt[1], k[1], SPEC[tgt[1]]['degrades']), line=node.get('_l')))
     chk.rule('C17.silent-degrade', 'call sites of library functions that the API model marks as degrading silently under allocation failure',
